@@ -37,11 +37,14 @@ type kase struct {
 	Wrapper bool   `json:"storage_wrapper"`
 	State   bool   `json:"state"`
 	Retry   bool   `json:"retry"`
-	Seed    int64  `json:"seed"`
+	// Aged: the enrollment happens three virtual days after the roots were
+	// created (and the final dial a day later) instead of right away
+	Aged bool  `json:"aged_roots"`
+	Seed int64 `json:"seed"`
 }
 
 func (k kase) String() string {
-	return fmt.Sprintf("flow=%s backend=%s storage-wrapper=%v state=%v retry=%v", k.Flow, k.Backend, k.Wrapper, k.State, k.Retry)
+	return fmt.Sprintf("flow=%s backend=%s storage-wrapper=%v state=%v retry=%v aged-roots=%v", k.Flow, k.Backend, k.Wrapper, k.State, k.Retry, k.Aged)
 }
 
 var dirSeq int
@@ -109,6 +112,10 @@ func (w *world) otherResponse(srv nodeenrollment.Storage, sopt []nodeenrollment.
 
 func (w *world) one(k kase, r *engine.Report) (string, string) {
 	vclock.Reset()
+	defer vclock.Reset()
+	if k.Aged {
+		vclock.Freeze(harness.T0)
+	}
 	fail := func(sig, format string, a ...any) (string, string) {
 		return sig + ":" + k.Flow, "[" + k.String() + "] " + fmt.Sprintf(format, a...)
 	}
@@ -123,6 +130,9 @@ func (w *world) one(k kase, r *engine.Report) (string, string) {
 	roots, err := rotation.RotateRootCertificates(harness.Ctx, srv, sopt...)
 	if err != nil {
 		return fail("setup", "root creation failed: %v", err)
+	}
+	if k.Aged {
+		vclock.Freeze(harness.T0.AddDate(0, 0, 3))
 	}
 	// a registered upstream node R for the re-wrapped flow
 	rk, re := harness.NewCertKey("R", w.seed), harness.NewEncKey("R-enc", w.seed)
@@ -404,6 +414,9 @@ func (w *world) one(k kase, r *engine.Report) (string, string) {
 	if err != nil || len(confs) == 0 {
 		return fail("client-configs", "stored credentials yield no client TLS configuration: %v", err)
 	}
+	if k.Aged {
+		vclock.Freeze(harness.T0.AddDate(0, 0, 4))
+	}
 	var derr error
 	rs, serr := harness.Serve(harness.ServerConfig{Storage: srv, Options: sopt}, func(addr string) {
 		conn, e := protocol.Dial(harness.Ctx, node, addr, nopt...)
@@ -439,7 +452,7 @@ func cases() []kase {
 						if f == "token" && re {
 							continue // a token is single-use: the honest retry of a token fetch must fail (C06)
 						}
-						out = append(out, kase{Flow: f, Backend: b, Wrapper: w, State: s, Retry: re})
+						out = append(out, kase{Flow: f, Backend: b, Wrapper: w, State: s, Retry: re}, kase{Flow: f, Backend: b, Wrapper: w, State: s, Retry: re, Aged: true})
 					}
 				}
 			}
@@ -484,7 +497,7 @@ func init() {
 	engine.Register(&engine.CheckDef{
 		ID:    "C04",
 		Level: "exploration",
-		Rule: "flow {operator-authorized, activation token, wrapper, re-wrapped by an upstream node} x storage back end {inmem, file, store-once} x storage wrapper {off,on} x application state / parameters {none, some} x honest retry {no, yes; not for tokens} = 84 configurations through the real node-side and server-side API; in each, 6 node-side substitutions (other decrypting key, another node's ciphertext / server key / whole response, different nonce, a foreign response for the node's key echoing another nonce - also after the enrollment completed), a fetch re-signed over another encryption key and a final real Dial to a listener over the same store; every issued certificate is parsed and checked; " +
+		Rule: "flow {operator-authorized, activation token, wrapper, re-wrapped by an upstream node} x storage back end {inmem, file, store-once} x storage wrapper {off,on} x application state / parameters {none, some} x honest retry {no, yes; not for tokens} = 84 configurations, each enrolled right after root creation and three virtual days later (168 runs), through the real node-side and server-side API; in each, 6 node-side substitutions (other decrypting key, another node's ciphertext / server key / whole response, different nonce, a foreign response for the node's key echoing another nonce - also after the enrollment completed), a fetch re-signed over another encryption key and a final real Dial to a listener over the same store; every issued certificate is parsed and checked; " +
 			"distinct_nontrivial counts configurations (distinct by construction) that ran to the final dial",
 		Assumptions: []string{"keys of an enrollment are freshly random (the library's own generators); the check is about bindings, not about key values"},
 		Shards:      func(c *engine.Ctx) int { return 12 },
